@@ -231,6 +231,18 @@ def check_raw(ctx, tu, info):
             sw = [w for w in info.writes(f) if w['how'].startswith('arg:') and w['how'].endswith('swap')]
             swapped = {(w['path'][0].startswith('v:'), last_field(w['path'])) for w in sw}
             ok = nulls and (False, 'data') in swapped and (True, 'data') in swapped and (False, 'deleter') in swapped
+            if not ok:
+                # the other spelling: take both members from the source in the initialiser list, then null the source's object pointer
+                def from_other(m):
+                    i = inits.get(m)
+                    if not i or not i.get('n'):
+                        return False
+                    pp = path(f, f.value_source(i['n']))
+                    return root_var_id(pp) == other and last_field(pp) == m
+                nulled = [w for w in info.writes(f) if root_var_id(w['path']) == other and last_field(w['path']) == 'data' and w['how'] == 'assign'
+                          and w.get('rhs') and (f.nodes[f.strip_all_casts(w['rhs'])]['cls'] in ('CXXNullPtrLiteralExpr', 'GNUNullExpr')
+                                                or f.nodes[f.strip_all_casts(w['rhs'])].get('value') == 0)]
+                ok = from_other('data') and from_other('deleter') and len(nulled) >= 1 and all(f.pos_postdominates(w['pos'], (f.entry, 0)) for w in nulled[:1])
             ctx.ob('C08.O', f, 'the LargeData move constructor takes the object and leaves the source owning nothing', ok,
                    detail='source and destination would both delete the same object')
         elif f.skey == 'anydata_internal_::LargeData::LargeData' and f.d.get('ctor') not in ('copy', 'move', 'default'):
